@@ -133,6 +133,9 @@ def _impl(tier, seed, search):
         if i % 5 == 2:
             Xa_ = SE3(inputs.se3(g, 1), check=False); xa_ = v6()
             ok, r = L.noraise('Twist3.Ad', lambda: (Twist3(Xa_).Ad(), Twist3.Revolute([0, 0, 1], [1, 2, 0]).Ad() if False else Twist3(Xa_).SE3().Ad(), Xa_.Ad()), dict(T=Xa_.A), 'Twist3(X).Ad()')
+            for nm_, Sp_ in (('prismatic', np.r_[g.normal(size=3), 0, 0, 0]), ('translation twist', Twist3(SE3(0.5, 0, -0.2)).S), ('revolute off origin', Twist3.Revolute([0, 0, 1], [1, 2, 0]).S * 0.7)):
+                okp, rp = L.noraise(f'Twist3.Ad({nm_})', lambda: (Twist3(Sp_).Ad(), b.adjoint(b.trexp(Sp_))), dict(S=Sp_), 'Twist3.Ad()')
+                if okp: L.close(f'Twist3.Ad({nm_})', rp[0], rp[1], 1e-7, max(1.0, float(np.max(np.abs(rp[1])))), dict(S=Sp_), what=f'the adjoint of a {nm_} twist is not the adjoint of its exponential', sig='Twist3.Ad')
             if ok: L.close('Twist3(X).Ad()=X.Ad()', r[0], r[2], 1e-7, max(1.0, geom.tmag(Xa_.A)), dict(T=Xa_.A), what='the adjoint of a rigid motion given as a Twist3 differs from the adjoint of the SE3', sig='Twist3.Ad')
             def edit_then_mul():
                 Xe_ = SE3(Xa_.A.copy(), check=False); first_ = (Xe_ * SpatialVelocity(xa_)).A.copy(); Ad1_ = Xe_.Ad(); Ad1_[0, 0] += 0.0
@@ -142,6 +145,14 @@ def _impl(tier, seed, search):
             if ok:
                 L.close('SE3*vector (first)', r[0], b.adjoint(Xa_.A) @ xa_, TOL, max(1.0, float(np.max(np.abs(xa_)))) * max(1.0, geom.tmag(Xa_.A)), dict(x=xa_), sig='SE3*vector:after-edit')
                 L.close('SE3*vector (after X[0] = Y)', r[1], b.adjoint(r[2]) @ xa_, TOL, max(1.0, float(np.max(np.abs(xa_)))) * max(1.0, geom.tmag(r[2])), dict(x=xa_), what='after the pose object was edited in place, X * S still uses the adjoint of the old value', sig='SE3*vector:after-edit')
+        # sequences of unequal length never combine, whichever side is longer, under + and -
+        if i % 10 == 0:
+            for cls_ in (SpatialVelocity, SpatialForce):
+                for (nl_, nr_) in ((1, 3), (2, 3), (2, 5), (3, 1), (3, 2)):
+                    def mkn_(n_): return cls_(np.array([v6() for _ in range(n_)]).T) if n_ > 1 else cls_(v6())
+                    for opn_, fo_ in (('+', operator.add), ('-', operator.sub)):
+                        if 1 in (nl_, nr_): continue
+                        L.raises(f'unequal-lengths:{cls_.__name__}', lambda: fo_(mkn_(nl_), mkn_(nr_)), dict(cls=cls_.__name__, op=opn_, len_left=nl_, len_right=nr_), f'{cls_.__name__}[{nl_}] {opn_} {cls_.__name__}[{nr_}] must raise', sig=f'unequal-lengths:{cls_.__name__}{opn_}')
         ok, r = L.noraise('crf(momentum)', lambda: (SpatialVelocity(vel).cross(SpatialMomentum(frc)), SpatialVelocity(vel) @ SpatialMomentum(frc)), dict(v=vel, h=frc), 'velocity x* momentum')
         if ok:
             L.close('crf(momentum)', r[0].A, -crm.T @ frc, TOL, sv * float(np.max(np.abs(frc))), dict(v=vel, h=frc), what='force cross product applied to a momentum is not the negative transpose of the motion cross product', sig='crf:momentum')
